@@ -61,7 +61,7 @@ def cases(tier, seed):
         out.append(c)
     for i in range(nz):
         c = _gen(rng, "thorough", i)
-        c.update({"id": "interp-%d" % i, "kind": "interp", "window": [30.0, 20.0, 10.0][i % 3], "degree": [32, 40, 48][(i // 3) % 3], "npts_det": [3, 40, 200][i % 3]})
+        c.update({"id": "interp-%d" % i, "kind": "interp", "window": [30.0, 20.0, 10.0][i % 3], "degree": [32, 40, 48][(i // 3) % 3], "npts_det": [3, 40, 200][i % 3], "annulus": bool((i // 3) % 2)})
         out.append(c)
     # small problems: every listed quadrature order is far beyond the integrand's bandwidth (|kz| <= 25, k*rho <= 15), so each
     # Lens(theta-order, phi-order) -- deliberately unequal and in both orders -- must already equal the analytic theory
@@ -196,7 +196,13 @@ def _run_interp(case):
     rng = rng_for("interp", case["id"])
     n = case["npts_det"]
     krho = np.concatenate([[0.0], loguniform(rng, 0.3, 350, n - 1)]) if n > 1 else np.array([0.0])
-    phi = rng.uniform(0, 2 * math.pi, n)
+    if case.get("annulus"):
+        # the sphere's axis is far outside the field of view: no detector point within the first interpolation windows
+        lo = float(rng.uniform(35, 120))
+        krho = rng.uniform(lo, lo + float(rng.uniform(5, 200)), max(n, 2))
+        phi = rng.uniform(0, 0.5, max(n, 2)) + rng.uniform(0, 6)
+    if not case.get("annulus"):
+        phi = rng.uniform(0, 2 * math.pi, n)
     det, s, nmed, wl, pol = _setup(case, krho, phi)
     la = case["la"]
     base = _field(det, s, nmed, wl, pol, MieLens(la, calculator_accuracy_kwargs={"interpolate_integrals": False}))
